@@ -221,11 +221,29 @@ def sampleOpts : Options :=
     styleToRequest := [("rpc", "RpcRequest"), ("upload", "UploadRequest"), ("download_file", "DownloadRequestFile"),
                        ("download_memory", "DownloadRequestMemory")] }
 
+/-- a small API for the quadratic `Nodup` checks (the kernel compares strings byte by byte) -/
+def miniApi : Api :=
+  { nss := [
+    { name := "files",
+      types := [
+        .struct { name := "Entry", fields := [⟨"path_lower", .prim "String", false, none⟩,
+                                               ⟨"kind", .user ⟨"files", "EntryKind"⟩, true, some (⟨"files", "EntryKind"⟩, "file")⟩] },
+        .union { name := "EntryKind", fields := [⟨"file", .prim "Void", false, none⟩,
+                                                  ⟨"folder", .prim "Int64", false, none⟩] } ],
+      routes := [
+        { name := "get_entry", arg := .user ⟨"files", "Entry"⟩, result := .user ⟨"files", "Entry"⟩,
+          error := .user ⟨"files", "EntryKind"⟩, style := some "rpc", auth := some "user" },
+        { name := "get_entry", version := 2, arg := .user ⟨"files", "Entry"⟩, style := some "upload",
+          auth := some "user" } ] } ] }
+
 example : ApiWF sampleApi := by decide +kernel
 example : (mentioned sampleApi).length = 23 := by decide +kernel
-example : nameInjective .swiftTypes sampleApi sampleOpts := by decide +kernel
-example : nameInjective .swiftTypesObjc sampleApi sampleOpts := by decide +kernel
-example : nameInjective .objcTypes sampleApi sampleOpts := by decide +kernel
+example : ApiWF miniApi := by decide +kernel
+example : nameInjective .swiftTypes miniApi sampleOpts := by decide +kernel
+example : nameInjective .swiftTypesObjc miniApi sampleOpts := by decide +kernel
+example : nameInjective .objcTypes miniApi sampleOpts := by decide +kernel
+example : nameInjective .swiftClient miniApi sampleOpts := by decide +kernel
+example : (itemKeys .swiftTypes miniApi).length = 11 := by decide +kernel
 example : (itemKeys .swiftTypes sampleApi).length = 31 := by decide +kernel
 example : (itemKeys .objcTypes sampleApi).length = 44 := by decide +kernel
 example : crash .swiftTypesObjc sampleApi sampleOpts = none := by decide +kernel
